@@ -145,6 +145,46 @@ def regroup_tree(rng, s, nid):
     return t
 
 
+def chain_findings(pid, known):
+    """Interface-to-interface binding chains (Bind(A, B) next to Bind(B, *C)): the property's wording on three fixed
+    inputs.  Listed in known_findings.json; a tree that treats them as the properties say prints nothing."""
+    kf = {k["key"]: k for k in known if k.get("status") == "finding"}
+    mk = synth.mkprov
+    prov = mk(1, 1, [])                                   # *T0
+    ab = {"id": 2, "iface": 2, "conc": 4}                 # A -> B
+    bc = {"id": 1, "iface": 4, "conc": 1}                 # B -> *T0
+    viol, knownl = [], []
+
+    def run(tree, out):
+        r = hook([{"op": "synth", "set": tree, "given": [], "out": out}])[0]
+        return r, bool(r.get("set_ok")) and bool(r.get("solved"))
+    if pid == "C08":
+        tree = synth.mkset(0, [], [prov], [], [], [bc, ab])
+        r, ok = run(tree, 2)
+        unused = [e for e in (r.get("solve_errs") or []) if "unused interface binding" in e]
+        if unused:
+            key = "bind-chain:contributing-binding-reported-unused"
+            if key in kf:
+                knownl.append("%s: %s" % (key, kf[key]["what_fails"]))
+            else:
+                viol.append(({"property": pid, "kind": "failing-input", "broken": "C08 oracle: binding chain", "input": {"graph": {"set": tree, "given": [], "out": 2}}, "impl": r, "key": key,
+                              "oracle": ["the binding B -> *T0 is what lets A (bound to B) be built, yet it is reported as unused: %s" % unused[0][:120]], "seed": seed()}, True))
+    if pid == "C10":
+        t1 = synth.mkset(0, [synth.mkset(1, [], [prov], [], [], [ab, bc])])
+        t2 = synth.mkset(0, [synth.mkset(1, [], [prov], [], [], [bc, ab])])
+        (r1, ok1), (r2, ok2) = run(t1, 2), run(t2, 2)
+        if ok1 != ok2:
+            key = "bind-chain:acceptance-depends-on-argument-order"
+            if key in kf:
+                knownl.append("%s: %s" % (key, kf[key]["what_fails"]))
+            else:
+                viol.append(({"property": pid, "kind": "failing-input", "broken": "C10 oracle: binding chain", "input": {"graph": {"set": t1, "given": [], "out": 2}, "permuted": {"set": t2}},
+                              "impl": {"order1": r1, "order2": r2}, "key": key,
+                              "oracle": ["wire.NewSet(Bind(A, B), Bind(B, *T0), p) is %s, the same set with the two bindings swapped is %s" % ("accepted" if ok1 else "rejected", "accepted" if ok2 else "rejected")],
+                              "seed": seed()}, True))
+    return viol, knownl
+
+
 def eng_synth(pid, tier, wd, known, replay=None):
     rng = random.Random(seed() * 7919 + 17)
     cases, tags = [], []
@@ -219,6 +259,10 @@ def eng_synth(pid, tier, wd, known, replay=None):
                            "impl": r, "impl_original": resps[j], "oracle": ["variant %s differs from its original" % tags[i]], "seed": seed()}
                 viol.append((payload, True))
     samples = [{"graph": {"set": cases[i][0], "given": cases[i][1], "out": cases[i][2]}, "impl_outcome": kinds[i][0]} for i in (0, len(cases) // 2, len(cases) - 1)]
+    knownl = []
+    if pid in ("C08", "C10") and replay is None:
+        v2, knownl = chain_findings(pid, known)
+        viol += v2
     return {"name": "synth", "evaluations": len(cases), "distinct_nontrivial": len(nontrivial), "samples": samples,
             "traces": len(cases),
             "stats": {"outcomes": stats, "generators": tagstats, "model_vs_impl_mismatches": len(mism)},
@@ -226,7 +270,7 @@ def eng_synth(pid, tier, wd, known, replay=None):
             "rule": "synthetic provider-set trees: hand-picked families + all 2-type graphs (exhaustive) + seeded random mostly-valid trees with one defect; "
                     "each run through the real buildProviderMap/verifyAcyclic/solve (hook) and through Model.analyze by vm_compute, compared on error class+types / provider map / call list; "
                     "non-trivial = distinct tree with >= 2 items",
-            "violations": viol, "known": []}
+            "violations": viol, "known": knownl}
 
 
 # ---------------------------------------------------------------------------------------------
@@ -421,10 +465,10 @@ PROPS = {
     "C07": {"theorems": ["C07_cycles_detected", "C07_only_cycle_errors", "C07_terminates", "C07_machine_refines_dfs", "C07_solve_terminates", "C07_checker_graph_covers_planner_graph", "C07_accepted_sets_acyclic_for_planner", "C07_linear_bound", "C07_cycles_detected_total", "C07_planner_linear_bound"],
             "engines": [eng_synth, eng_prog],
             "assumptions": [SYNTH_NOTE, "wall-clock behaviour is runtime, sampled on lattices/chains only"]},
-    "C08": {"theorems": ["C08_used_exactly", "C08_unused_reported_exactly", "C08_called_is_used", "C08_used_have_source"], "engines": [eng_synth, eng_prog, eng_multi], "assumptions": [SYNTH_NOTE]},
+    "C08": {"theorems": ["C08_used_exactly", "C08_chain_binding_reported_unused_refuted", "C08_unused_reported_exactly", "C08_called_is_used", "C08_used_have_source"], "engines": [eng_synth, eng_prog, eng_multi], "assumptions": [SYNTH_NOTE]},
     "C09": {"theorems": ["C09_results", "C09_rejects", "C09_identical_types_rejected"], "engines": [eng_funcoutput, eng_prog],
             "assumptions": ["result kinds are abstracted to what funcOutput can distinguish (identity with error / func())"]},
-    "C10": {"theorems": ["C10_regrouping_preserves_analysis", "C10_analysis_order_independent", "C10_solve_depends_on_lookups_only", "C10_phase_order_independent", "C05_never_picks"], "engines": [eng_synth, eng_prog, eng_multi, eng_layouts], "assumptions": [SYNTH_NOTE]},
+    "C10": {"theorems": ["C10_regrouping_preserves_analysis", "C10_binding_order_refuted", "C10_analysis_order_independent", "C10_solve_depends_on_lookups_only", "C10_phase_order_independent", "C05_never_picks"], "engines": [eng_synth, eng_prog, eng_multi, eng_layouts], "assumptions": [SYNTH_NOTE]},
     "C11": {"theorems": ["C11_bind_accepts", "C11_colocated", "C11_shared_instance", "C02_wiring_accepted"], "engines": [eng_synth, eng_prog, eng_forms, eng_front], "assumptions": [SYNTH_NOTE, "Go's method-set rule (types.Implements) is go/types' and is not modelled"]},
     "C12": {"theorems": ["C12_fieldsof_accepts", "C12_fieldsof_pointer_iff", "C12_struct_needs_named_struct", "C12_check_field_sound", "C12_star_selects_unprevented", "C12_struct_provider_outputs"], "engines": [eng_prog, eng_forms, eng_layouts, eng_front],
             "assumptions": ["field names are ASCII; strconv.Quote and strings.EqualFold are modelled on ASCII identifiers", "FieldsOf name resolution shares checkField; its front end is exercised through the binary only"]},
